@@ -23,3 +23,10 @@ for _m, _nm, _fn, _must in ((2, 'reader_delete.result', '_dbus_type_reader_delet
                    dict(name='replacement_block_init/_replace/_free', file=REC, status='replaced', note='each may fail (OOM); replace contract enforced by C12.block_replace.order'),
                    dict(name='_dbus_type_writer_write_basic, _dbus_type_writer_init_values_only', file=REC, status='stub', note='may fail; arguments checked')],
         assumptions=[]))
+UNITS.append(dict(name='C12.writer_append_array', props=['C12', 'C02'], kind='P', route='plain', entry='harness',
+    tus=[dict(file=REC, include_as='VERIF_TU'), dict(file='dbus/dbus-string.c'), dict(file='dbus/dbus-marshal-basic.c'), dict(file='dbus/dbus-signature.c')],
+    harness='harness/c12r_append.c', extra_sources=['stubs/assert_stubs.c', 'stubs/c07_mem.c'], unwind=26, timeout=600, expect_s=20,
+    must_have=['app.post1', 'app.post2', 'app.post4'],
+    functions=[dict(name='_dbus_type_writer_append_array, writer_recurse_init_and_check, writer_recurse_array (append branch), _dbus_type_writer_init_values_only', file=REC, status='enforced', contract='sub-writer at start + length word decoded in the header byte order; header bytes untouched'),
+               dict(name='_dbus_string_get_const_udata_len/_get_byte, _dbus_unpack_uint32, _dbus_type_get_alignment, _dbus_first_type_in_signature', file='dbus/dbus-string.c, dbus/dbus-marshal-basic.c', status='inlined', note='real code')],
+    assumptions=['loops only over the constant 24-byte image and the 11-byte signature (unwound completely: not a bound on the input)']))
